@@ -174,6 +174,8 @@ public:
             clear();
             alloc_.deallocate(data_, capacity_);
             data_ = nullptr;
+            capacity_ = 0;
+            begin_ = end_ = 0;
         }
     }
 
